@@ -5,8 +5,8 @@
 From Coq Require Import List Arith Lia ZArith QArith PrimFloat.
 Import ListNotations.
 From AgileV Require Import Base.Prelude.
-From AgileV Require C09.Model.
-From AgileV Require Import C11.Model C11.TreeProofs C11.SumProofs C11.MinProofs C11.RangeProofs C11.PerProofs C11.UpdateProofs C11.GenericProofs C11.Joint C11.JointProofs.
+From AgileV Require C09.Model C09.Proofs.
+From AgileV Require Import C11.Model C11.TreeProofs C11.SumProofs C11.MinProofs C11.RangeProofs C11.PerProofs C11.UpdateProofs C11.GenericProofs C11.Joint C11.JointProofs C11.Strict C11.StrictProofs.
 Local Open Scope nat_scope.
 
 (* ---------------------------------------------------------------- the segment trees ------- *)
@@ -123,6 +123,47 @@ Theorem sampled_rows_are_stored : forall (A : Type) (powa : Q -> Q), (forall x, 
 Proof. exact @sampled_rows_are_stored_lemma. Qed.
 Print Assumptions sampled_rows_are_stored.
 
+(* ---- the assertion of _update_priority: idx < max_size (code as it is) vs idx < len (repair) ---- *)
+(* The code as it is accepts a priority for a slot that holds no transition; sample then returns it.
+   KNOWN FINDING update-unstored-accepted (fixes/C11-update-priority-stored-index.patch). *)
+Theorem unstored_update_refuted : exists m ops us idxs,
+  let s := per_run QC (fun x => x) m ops in
+  option_map fst (per_sample QC Qinv s us) = Some idxs /\ exists i, In i idxs /\ size s <= i.
+Proof.
+  exists 2, [Add 1; @Update QC [(0, 2%Q); (1, 3%Q)]], [(15 # 16)%Q], [1]. split; [vm_compute; reflexivity|].
+  exists 1. split; [left; reflexivity|vm_compute; lia].
+Qed.
+Print Assumptions unstored_update_refuted.
+
+(* the parametrised model at strict = false IS the model of the code as it is *)
+Theorem strict_false_is_model : forall (C : carrier) (powa : C -> C) m ops,
+  per_run_g C powa false m ops = per_run C powa m ops.
+Proof. exact per_run_g_false. Qed.
+Print Assumptions strict_false_is_model.
+
+(* with the repaired assertion the invariant holds after EVERY interleaving, whatever indices
+   update_priorities is given (no guard), add() never trips the assertion, ... *)
+Theorem strict_invariant : forall powa : Q -> Q, (forall x, (0 < x)%Q -> (0 < powa x)%Q) ->
+  forall m ops, 0 < m -> per_inv (per_run_g QC powa true m ops).
+Proof. exact strict_run_inv. Qed.
+Print Assumptions strict_invariant.
+
+(* ... sample only returns stored indices, ... *)
+Theorem strict_sampled_are_stored : forall powa : Q -> Q, (forall x, (0 < x)%Q -> (0 < powa x)%Q) ->
+  forall (powb : Q -> Q) m ops us, 0 < m ->
+  let s := per_run_g QC powa true m ops in
+  0 < size s -> Forall draw_ok us ->
+  exists idxs ws, per_sample QC powb s us = Some (idxs, ws) /\
+    length idxs = length us /\ Forall (fun i => i < size s) idxs.
+Proof. exact StrictProofs.strict_sampled_are_stored. Qed.
+Print Assumptions strict_sampled_are_stored.
+
+(* ... and an update of an empty slot raises, leaving the state as it was *)
+Theorem strict_rejects_unstored : forall (powa : Q -> Q) s i p r, size s <= i ->
+  per_update_g QC powa true s ((i, p) :: r) = (s, true).
+Proof. exact StrictProofs.strict_rejects_unstored. Qed.
+Print Assumptions strict_rejects_unstored.
+
 (* ---- what holds in EVERY arithmetic, in particular for the binary64 instance the check runs ---- *)
 (* retrieve never leaves the tree (no rounding can produce an out-of-range index) *)
 Theorem retrieve_in_tree : forall (C : carrier) d l ub r, retrieve C (2 ^ d) l ub = Some r -> r < 2 ^ d.
@@ -152,6 +193,21 @@ Theorem sampled_in_tree_any_carrier : forall (C : carrier) (s : per C) us idxs w
   Forall (fun i => i < tcap s /\ (size s <= i -> leaf (c_zero C) (tcap s) (sumt s) i = c_zero C)) idxs.
 Proof. exact gsampled_in_tree. Qed.
 Print Assumptions sampled_in_tree_any_carrier.
+
+(* the n-step buffer paired with the prioritised buffer (train_off_policy: both written in lockstep, n-step
+   rows gathered by Sampler.sample_n_step -> sample_from_indices with the indices sampled from the
+   prioritised buffer): every such index addresses in BOTH ring buffers the record of the same stream
+   position p (slot p mod capacity), and the gather returns one row per index *)
+Theorem paired_rows_aligned : forall (A B : Type) c (h1 : list A) (h2 : list B)
+  (b1 : C09.Model.rb A) (b2 : C09.Model.rb B) idxs,
+  0 < c -> C09.Proofs.Inv c h1 b1 -> C09.Proofs.Inv c h2 b2 -> length h1 = length h2 ->
+  Forall (fun i => i < C09.Model.size b1) idxs ->
+  C09.Model.size b2 = C09.Model.size b1 /\
+  Forall (fun i => exists p x y, nth_error h1 p = Some x /\ nth_error h2 p = Some y /\ p mod c = i /\
+                     nth i (C09.Model.store b1) None = Some x /\ nth i (C09.Model.store b2) None = Some y) idxs /\
+  length (sample_from_indices b2 idxs) = length idxs.
+Proof. exact @paired_rows_aligned_lemma. Qed.
+Print Assumptions paired_rows_aligned.
 
 (* add(): every new transition gets (highest priority seen so far)^alpha; the maximum is unchanged *)
 Theorem new_gets_max : forall powa : Q -> Q, (forall x, (0 < x)%Q -> (0 < powa x)%Q) ->
